@@ -240,6 +240,31 @@ class Proj:
         self.files[os.path.join(d, n)] = body if body is not None else 'int f%d(void) { return %d; }\n' % (self.nsrc, self.nsrc)
         return n
 
+    def dup_counts(self, d, exprs):
+        """how many entries of a target's source list repeat an earlier one, per source suffix
+        (generate_target keeps sources keyed by path, extract_all_objects counts every entry)"""
+        import re
+        ctouts = {t['var']: (t['dir'], t['outs']) for t in self.targets if t['kind'] == 'ct' and 'outs' in t}
+        keys = []
+        for e in exprs:
+            m = re.match(r'^(t\d+)(?:\[(\d+)\])?$', e)
+            if m and m.group(1) in ctouts:
+                cd, outs = ctouts[m.group(1)]
+                for o in (outs if m.group(2) is None else [outs[int(m.group(2))]]):
+                    keys.append((cd, o))
+            elif e.startswith("'"):
+                keys.append((d, e[1:-1]))
+        res = {}
+        seen = set()
+        for k in keys:
+            suf = k[1].rsplit('.', 1)[-1]
+            if suf not in ('c', 'cpp'):
+                continue
+            if k in seen:
+                res[suf] = res.get(suf, 0) + 1
+            seen.add(k)
+        return res
+
     def pick_name(self, used):
         r = self.rng
         k = r.random()
@@ -351,8 +376,10 @@ class Proj:
                 deps = []
                 if sp_lib and r.random() < 0.3:
                     deps.append(sp_lib)
+                dep_src = []
                 if hdrs and r.random() < 0.2:
-                    deps.append('declare_dependency(sources: %s)' % r.choice(hdrs))
+                    dep_src.append(r.choice(hdrs))
+                    deps.append('declare_dependency(sources: %s)' % dep_src[-1])
                 if deps:
                     kw.append('dependencies: [%s]' % ', '.join(deps))
                 if exes and kind == 'exe' and libs and r.random() < 0.1:
@@ -372,7 +399,8 @@ class Proj:
                       'both': 'both_libraries', 'mod': 'shared_module'}[kind]
                 wrong_link_whole = False
                 L.append('%s = %s(%s, %s%s)' % (v, fn, ms(name), ', '.join(srcs), ''.join(', ' + k for k in kw)))
-                self.targets.append({'var': v, 'name': name, 'dir': d, 'kind': kind, 'bbd': True if bbd is None else bbd})
+                self.targets.append({'var': v, 'name': name, 'dir': d, 'kind': kind, 'bbd': True if bbd is None else bbd,
+                                     'dups': self.dup_counts(d, srcs + dep_src)})
                 if kind == 'exe':
                     exes.append(v)
                     if r.random() < 0.2:
@@ -549,7 +577,89 @@ class Proj:
                 'flavour': self.flavour, 'idx': self.idx}
 
 
+def gen_unity_project(rng, idx):
+    """unity build + targets whose objects are extracted (both_libraries / library with default_library=both,
+    extract_all_objects, link_whole static->static); duplicate-free C sources; source counts both equal to
+    k*unity_size and not, with the default unity_size (4) and small ones."""
+    size_arg = rng.choice([None, None, 2, 3])
+    size = size_arg or 4
+    files, L, targets = {}, ["project(%s, 'c', version: '1.0')" % ms('u%s' % idx)], []
+    args = ['--unity=on'] + (['-Dunity_size=%d' % size_arg] if size_arg else [])
+    if rng.random() < 0.25:
+        args.append('--layout=flat')
+    counts = [size * rng.choice([1, 1, 2]),
+              rng.choice([c for c in (1, size - 1, size + 1, 2 * size - 1, 2 * size + 1) if c >= 1 and c % size])]
+    if rng.random() < 0.5:
+        counts.append(rng.randint(1, 2 * size + 1))
+    rng.shuffle(counts)
+    use_ct = rng.random() < 0.35
+    if use_ct:
+        L.append("ugen = custom_target('ugen', output: ['ugen.c', 'ugen.h'], command: [find_program('true'), '@OUTPUT@'])")
+        targets.append({'var': 'ugen', 'name': 'ugen', 'dir': '', 'kind': 'ct', 'bbd': False, 'outs': ['ugen.c', 'ugen.h']})
+    for k, n in enumerate(counts):
+        names = []
+        for j in range(n - (1 if use_ct and k == 0 else 0)):
+            fn = 'u%d_%d.c' % (k, j)
+            files[fn] = 'int u%d_%d(void) { return %d; }\n' % (k, j, j)
+            names.append(ms(fn))
+        if use_ct and k == 0:
+            names.append('ugen')                  # the generated ugen.c counts as a source
+        srcs = ', '.join(names) if names else "'u_empty.c'"
+        shape = rng.choice(['both', 'both', 'extract', 'link_whole', 'lib_both'])
+        if shape == 'both':
+            L.append("ub%d = both_libraries('ub%d', %s)" % (k, k, srcs))
+            targets.append({'var': 'ub%d' % k, 'name': 'ub%d' % k, 'dir': '', 'kind': 'both', 'bbd': True, 'dups': {}})
+        elif shape == 'lib_both':
+            if not any(a.startswith('-Ddefault_library') for a in args):
+                args.append('-Ddefault_library=both')
+            L.append("ul%d = library('ul%d', %s)" % (k, k, srcs))
+            targets.append({'var': 'ul%d' % k, 'name': 'ul%d' % k, 'dir': '', 'kind': 'lib', 'bbd': True, 'dups': {}})
+        elif shape == 'extract':
+            files['um%d.c' % k] = 'int main(void) { return 0; }\n'
+            L.append("us%d = static_library('us%d', %s)" % (k, k, srcs))
+            L.append("ux%d = executable('ux%d', 'um%d.c', objects: us%d.extract_all_objects(recursive: false))" % (k, k, k, k))
+            targets.append({'var': 'us%d' % k, 'name': 'us%d' % k, 'dir': '', 'kind': 'slib', 'bbd': True, 'dups': {}})
+            targets.append({'var': 'ux%d' % k, 'name': 'ux%d' % k, 'dir': '', 'kind': 'exe', 'bbd': True, 'dups': {}})
+        else:
+            files['uw%d.c' % k] = 'int uw%d(void) { return 0; }\n' % k
+            L.append("ua%d = static_library('ua%d', %s)" % (k, k, srcs))
+            L.append("uw%d = static_library('uw%d', 'uw%d.c', link_whole: ua%d)" % (k, k, k, k))
+            targets.append({'var': 'ua%d' % k, 'name': 'ua%d' % k, 'dir': '', 'kind': 'slib', 'bbd': True, 'dups': {}})
+            targets.append({'var': 'uw%d' % k, 'name': 'uw%d' % k, 'dir': '', 'kind': 'slib', 'bbd': True, 'dups': {}})
+    files['meson.build'] = '\n'.join(L) + '\n'
+    return {'files': files, 'args': args, 'targets': targets, 'tests': [], 'flavour': 'unityx', 'idx': idx,
+            'unity': {'unity_size': size, 'source_counts': counts}}
+
+
+def _usrc(prefix, n):
+    return {('%s%d.c' % (prefix, j)): 'int %s%d(void) { return %d; }\n' % (prefix, j, j) for j in range(n)}
+
+
+def _ulist(prefix, n):
+    return ', '.join("'%s%d.c'" % (prefix, j) for j in range(n))
+
+
 CORPUS_PROJECTS = [
+    # unity + extracted objects, duplicate-free C sources: counts that are / are not a multiple of unity_size
+    {'idx': 'unity-extracted-objects-default-size-4-8-3-5', 'args': ['--unity=on'], 'flavour': 'corpus',
+     'files': dict(list(_usrc('a', 4).items()) + list(_usrc('b', 8).items()) + list(_usrc('c', 3).items()) + list(_usrc('d', 5).items()) +
+                   [('m.c', 'int main(void){return 0;}\n'), ('w.c', 'int w(void){return 0;}\n'),
+                    ('meson.build', "project('cu1', 'c')\nla = both_libraries('la', %s)\nlb = static_library('lb', %s)\n"
+                                    "e = executable('e', 'm.c', objects: lb.extract_all_objects(recursive: false))\n"
+                                    "lc = static_library('lc', %s)\nlw = static_library('lw', 'w.c', link_whole: lc)\nld = both_libraries('ld', %s)\n"
+                                    % (_ulist('a', 4), _ulist('b', 8), _ulist('c', 3), _ulist('d', 5)))]),
+     'targets': [{'var': 'la', 'name': 'la', 'dir': '', 'kind': 'both', 'bbd': True}, {'var': 'e', 'name': 'e', 'dir': '', 'kind': 'exe', 'bbd': True},
+                 {'var': 'lw', 'name': 'lw', 'dir': '', 'kind': 'slib', 'bbd': True}, {'var': 'ld', 'name': 'ld', 'dir': '', 'kind': 'both', 'bbd': True}],
+     'tests': []},
+    {'idx': 'unity-extracted-objects-size-2-counts-4-2-3-1', 'args': ['--unity=on', '-Dunity_size=2', '-Ddefault_library=both'], 'flavour': 'corpus',
+     'files': dict(list(_usrc('a', 4).items()) + list(_usrc('b', 2).items()) + list(_usrc('c', 3).items()) + list(_usrc('d', 1).items()) +
+                   [('m.c', 'int main(void){return 0;}\n'),
+                    ('meson.build', "project('cu2', 'c')\nla = library('la', %s)\nlb = both_libraries('lb', %s)\nlc = both_libraries('lc', %s)\n"
+                                    "ld = static_library('ld', %s)\ne = executable('e', 'm.c', objects: ld.extract_all_objects(recursive: false))\n"
+                                    % (_ulist('a', 4), _ulist('b', 2), _ulist('c', 3), _ulist('d', 1)))]),
+     'targets': [{'var': 'la', 'name': 'la', 'dir': '', 'kind': 'lib', 'bbd': True}, {'var': 'lb', 'name': 'lb', 'dir': '', 'kind': 'both', 'bbd': True},
+                 {'var': 'lc', 'name': 'lc', 'dir': '', 'kind': 'both', 'bbd': True}, {'var': 'e', 'name': 'e', 'dir': '', 'kind': 'exe', 'bbd': True}],
+     'tests': []},
     # hand-picked corner cases (run first).  name, files, args, targets(var,name,dir,kind,bbd), tests
     {'idx': 'same-basename-two-subdirs-mirror', 'args': [], 'flavour': 'corpus',
      'files': {'meson.build': "project('c1', 'c')\nsubdir('a')\nsubdir('b')\n",
@@ -598,7 +708,7 @@ CORPUS_PROJECTS = [
      'targets': [{'var': 'e', 'name': 'tool', 'dir': '', 'kind': 'exe', 'bbd': False}], 'tests': [{'name': 't', 'uses': ['e']}]},
     {'idx': 'unity-both-libraries-duplicate-source', 'args': ['--unity=on', '-Dunity_size=2'], 'flavour': 'corpus',
      'files': {'meson.build': "project('c12', 'c')\nb = both_libraries('foo1', 'a.c', 'a.c', 'b.c')\n", 'a.c': 'int a(void){return 0;}\n', 'b.c': 'int b(void){return 0;}\n'},
-     'targets': [{'var': 'b', 'name': 'foo1', 'dir': '', 'kind': 'both', 'bbd': True}], 'tests': []},
+     'targets': [{'var': 'b', 'name': 'foo1', 'dir': '', 'kind': 'both', 'bbd': True, 'dups': {'c': 1}}], 'tests': []},
     {'idx': 'unity-both-libraries-assembly-source', 'args': ['--unity=on', '-Dunity_size=2'], 'flavour': 'corpus',
      'files': {'meson.build': "project('c13', 'c')\nb = both_libraries('foo1', 'a.c', 'b.c', 'c.S')\n", 'a.c': 'int a(void){return 0;}\n', 'b.c': 'int b(void){return 0;}\n', 'c.S': ''},
      'targets': [{'var': 'b', 'name': 'foo1', 'dir': '', 'kind': 'both', 'bbd': True}], 'tests': []},
@@ -738,12 +848,74 @@ def setup_repo_project(d, base):
     return {'rc': rc, 'out': out[-2000:], 'builddir': bld, 'srcdir': src, 'tag': tag, 'origin': d}
 
 
-def unity_extract_only(verdict, args):
-    """every offender is an input <target>-unity<N>.<suffix>.o that no statement produces, in a unity build
-    (known finding C04-unity-extracted-objects)"""
+ASM_SUFFIXES = ('.s', '.S', '.sx', '.asm', '.masm', '.ll')
+
+
+def parse_statements(rendering):
+    """(outs, iouts, rule, ins) of every statement of a manifest rendering (Entry.v `parse`)"""
+    if rendering.startswith('ERR'):
+        return []
+    body = rendering.split(S4)[1]
+    res = []
+    for st in (body.split(S3) if body else []):
+        f = st.split(S1)
+        sp = lambda x: x.split(S2) if x else []
+        res.append((sp(f[0]), sp(f[1]), f[2], sp(f[3])))
+    return res
+
+
+def unity_known_finding(verdict, rc, bld, rendering):
+    """True iff every offender is a unity object that no statement produces AND the recorded mechanism of
+    known finding C04-unity-extracted-objects explains exactly these objects: the target's source list
+    repeats a source or holds sources that cannot join a unity file (assembly, LLVM IR), and the missing
+    indices are  [compiled unity files, ceil((sources as listed) / unity_size)).  A missing unity object of
+    a duplicate-free all-C/C++ source list, or a different count, is NOT the known finding."""
     import re
-    return (any(a.startswith('--unity=') and a != '--unity=off' for a in args) and bool(verdict) and
-            all(e[0] == 'missing-input' and re.search(r'-unity\d+\.[a-z+]+\.o$', e[2]) for e in verdict))
+    args = rc.get('args', [])
+    if not verdict or not any(a in ('--unity=on', '--unity=subprojects') for a in args):
+        return False
+    size = 4
+    for a in args:
+        if a.startswith('-Dunity_size='):
+            size = int(a.split('=')[1])
+    groups = {}
+    for e in verdict:
+        m = re.match(r'^(.*\.p)/meson-generated_(.*)-unity(\d+)\.([A-Za-z+]+)\.o$', e[2]) if e[0] == 'missing-input' else None
+        if not m:
+            return False
+        groups.setdefault((m.group(1), m.group(2), m.group(4)), set()).add(int(m.group(3)))
+    stmts = parse_statements(rendering)
+    if not stmts:
+        return False
+    try:
+        intro = json.load(open(os.path.join(bld, 'meson-info', 'intro-targets.json')))
+    except Exception:
+        intro = []
+    src = os.path.dirname(bld)
+    for (pdir, name, suf), miss in groups.items():
+        pat = re.compile(re.escape(pdir + '/meson-generated_' + name) + r'-unity\d+\.' + re.escape(suf) + r'\.o$')
+        compiled = sum(1 for outs, _, _, _ in stmts for o in outs if pat.match(o))
+        n_u = 0
+        for k in range(compiled):
+            try:
+                n_u += sum(1 for l in open(os.path.join(bld, pdir, '%s-unity%d.%s' % (name, k, suf))) if l.startswith('#include<'))
+            except OSError:
+                return False
+        n_sep = sum(1 for outs, _, _, ins in stmts
+                    if ins and ins[0].endswith(ASM_SUFFIXES) and any(o.startswith(pdir + '/') for o in outs))
+        # the repeats the generator put into this target's source list (0 when the project is not ours)
+        owners = []
+        for t in intro:
+            if any(os.path.relpath(f, bld) + '.p' == pdir for f in t['filename']):
+                dd = os.path.relpath(os.path.dirname(t['defined_in']), src)
+                owners += [x for x in rc.get('targets', []) if x['name'] == t['name'] and x['dir'] == ('' if dd == '.' else dd) and x['kind'] != 'ct']
+        dups = owners[0].get('dups', {}).get(suf, 0) if len(owners) == 1 else 0
+        if n_sep == 0 and dups == 0:
+            return False                      # the recorded mechanism does not apply to this target
+        listed = n_u + dups + n_sep
+        if miss != set(range(compiled, (listed + size - 1) // size)):
+            return False                      # not the objects the recorded mechanism would name
+    return True
 
 
 def show(s):
@@ -791,7 +963,7 @@ def judge_manifests(ctx, built, items):
         ctx._kc_cases += [(c, o) for c, o in zip(cases, checks) if len(c[1][0]) < 7000][:3]
     for k, it in enumerate(items):
         p = py[k]
-        r = {'label': it['label'], 'py_parse_ok': not p['parse'].startswith('ERR'), 'oracle': p.get('oracle', []),
+        r = {'label': it['label'], 'py_parse_ok': not p['parse'].startswith('ERR'), 'oracle': p.get('oracle', []), 'parse': p['parse'],
              'statements': 0 if p['parse'].startswith('ERR') else p['parse'].split(S4)[1].count(S3) + 1}
         verdict = None
         if built:
@@ -1029,10 +1201,11 @@ def run(ctx):
     # ------------------------------------------------------------------ D: projects through the CLI
     base = ctx.mkscratch()
     nproj = 1000 if thorough else 40
-    flavours = ['plain', 'plain', 'odd', 'collide', 'collide', 'hostile', 'reserved', 'plain', 'big']
+    flavours = ['plain', 'unityx', 'odd', 'collide', 'collide', 'hostile', 'reserved', 'plain', 'big', 'plain', 'unityx']
     recs = [dict(c) for c in CORPUS_PROJECTS]
     for i in range(nproj):
-        recs.append(Proj(rng, i, flavours[i % len(flavours)]).build().record())
+        fl = flavours[i % len(flavours)]
+        recs.append(gen_unity_project(rng, i) if fl == 'unityx' else Proj(rng, i, fl).build().record())
     stats = {'projects': len(recs), 'configured': 0, 'rejected_at_configure': 0, 'crashed': 0, 'statements': 0,
              'by_flavour': {}, 'args': {}}
     CH = 160
@@ -1073,7 +1246,7 @@ def run(ctx):
                     ident = 'C04:cli:pipe-in-path'
                 elif kinds == ['unreachable'] and any('override_find_program' in b for b in rc['files'].values()):
                     ident = 'C04:cli:overridden-program-unreachable'
-                elif unity_extract_only(rs['verdict'], rc['args']):
+                elif unity_known_finding(rs['verdict'], rc, s['builddir'], rs.get('parse', 'ERR')):
                     ident = 'C04:cli:unity-extracted-objects'
 
                 ctx.violation(ident, 'meson setup succeeded but build.ninja breaks the property (%s): %s'
